@@ -54,4 +54,15 @@ for d in /tmp/zt_x*y; do
     fi
   done
 done
+for d in /tmp/zu_y*z; do
+  [ -d "$d" ] || continue
+  id=C$(basename $d | sed 's/zu_y\(..\)z/\1/')
+  for k in 1 2; do
+    if [ -s $d/round6_$k.diff ]; then
+      mkdir -p /verif/refactors/$id
+      cp $d/round6_$k.diff /verif/refactors/$id/round6_$k.diff
+      [ -f $d/round6_check_$k.py ] && cp $d/round6_check_$k.py /verif/refactors/$id/round6_check_$k.py
+    fi
+  done
+done
 ls /verif/seeded
